@@ -598,6 +598,7 @@ def row_time(c: Ctx) -> None:
                 except OverflowError:
                     continue
                 c.expect_encoding(W.write_datetime_i64, R.read_datetime_i64, local, want, read_back=dt)
+                c.expect_encoding(W.write_nullable_datetime_i64, R.read_nullable_datetime_i64, local, want, read_back=dt)  # the sibling gets the same inputs
         try:
             got = R.tz_aware_from_i64(ms)
             c.tick(R.tz_aware_from_i64)
